@@ -184,6 +184,9 @@ func (h *Hosts) notif(x *Host) Notif {
 	return n
 }
 
+// NotifKey renders the notification currently owed for x.
+func (h *Hosts) NotifKey(x *Host) string { return h.notif(x).String() }
+
 // UpdateName models Host.Update*Name.
 func (h *Hosts) UpdateName(x *Host, kind int, name string) bool {
 	if name == "" || x.Names[kind] == name {
